@@ -9,12 +9,11 @@
  */
 #include "common.h"
 #include "decode.h"
-#include "main.h"
 #include <arpa/inet.h>
 #include <stdio.h>
 #include <string.h>
 
-bool small;
+#include "globals.h"
 
 void *
 xmalloc(size_t n)
